@@ -34,6 +34,13 @@ def r13_1(ctx, rc):
     prog = ctx.prog
     enums = [c for c in prog.classes.values() if 'Enum' in c.bases]
     if len(enums) != 1:
+        # the comparison modes are the public one (exported by the package)
+        api = set()
+        for st in getattr(prog.modules.get('__init__'), 'body', []):
+            if isinstance(st, ast.ImportFrom):
+                api |= {a.asname or a.name for a in st.names}
+        enums = [c for c in enums if c.name in api]
+    if len(enums) != 1:
         raise AnalysisError('comparison enum not identified')
     members = set(enums[0].class_attrs)
     D, table, fall = _dispatch(ctx)
